@@ -199,9 +199,14 @@ func (c *cluster) recordLogWrite(i int, b []byte) {
 	}
 }
 
-func (c *cluster) pushPull() {
+// pushPull: full-state exchange over every up link, both directions (only: restrict to pairs that include that
+// instance, as memberlist does for a node that joins; -1: all pairs, the periodic exchange).
+func (c *cluster) pushPull(only int) {
 	for i := 0; i < c.sc.N; i++ {
 		for j := 0; j < c.sc.N; j++ {
+			if only >= 0 && i != only && j != only {
+				continue
+			}
 			c.mtx.Lock()
 			a, b, up := c.insts[i], c.insts[j], i != j && c.link[i][j]
 			c.mtx.Unlock()
@@ -216,6 +221,11 @@ func (c *cluster) pushPull() {
 					c.sim.mtx.Unlock()
 				}
 				_ = b.nflog.Merge(st)
+				if gaps := nflogNotCovered(st, b.nflog, at); len(gaps) > 0 {
+					c.sim.mtx.Lock()
+					c.sim.trace.PushPullGaps = append(c.sim.trace.PushPullGaps, fmt.Sprintf("at %s instance %d merged the full state of instance %d but does not hold: %s", at.Format("15:04:05.000"), j, i, strings.Join(gaps, "; ")))
+					c.sim.mtx.Unlock()
+				}
 			}
 			if st, err := a.silences.MarshalBinary(); err == nil {
 				_ = b.silences.Merge(st)
@@ -266,7 +276,7 @@ func runCluster(sc *ClusterScenario, tr *Trace) {
 			for {
 				select {
 				case <-tk.C:
-					c.pushPull()
+					c.pushPull(-1)
 				case <-stopPP:
 					return
 				}
@@ -306,6 +316,9 @@ func runCluster(sc *ClusterScenario, tr *Trace) {
 				epochs[st.Inst]++
 				if err := c.start(st.Inst, epochs[st.Inst], &sc.Config, c.snaps[st.Inst][0], c.snaps[st.Inst][1]); err != nil {
 					s.errf("start %d: %v", st.Inst, err)
+				} else {
+					// a joining node exchanges its full state with the members it can reach
+					c.pushPull(st.Inst)
 				}
 			}
 		case "link":
@@ -752,6 +765,9 @@ func JudgeCluster(sc *ClusterScenario, tr *Trace) ([]pbt.Violation, ClusterStats
 		if st.Senders == 1 && st.Deliveries > 0 && sc.N > 1 {
 			st.CrossInstanceDedup = st.Deliveries
 		}
+	}
+	for _, g := range tr.PushPullGaps {
+		add(pbt.V("pushpull-incomplete", "%s", g))
 	}
 	if tr.Net != nil && tr.Net["storm"] > 0 {
 		add(pbt.V("gossip-storm", "one instance broadcast the same notification-log or silence update more than %d times (%d broadcasts cut): updates are re-gossiped without end instead of once per first merge", gossipStormLimit, tr.Net["storm"]))
